@@ -354,7 +354,7 @@ func c17Gen(rng *gen.Rng, population string) *c17Hist {
 			burst--
 			p = burstPath
 		}
-		render := rng.Pick([]string{"top", "direct", "direct", "direct", "funcparam", "funcglobal", "funcdirect", "nested", "nested", "if", "ifdirect", "for", "fordirect", "shared", "shared", "unused", "elsedirect", "scopes", "reexec", "paramglobal", "untilexists", "nottaken", "multiret", "globalupdate", "afterchain", "flagafter", "loopswitch"})
+		render := rng.Pick([]string{"top", "direct", "direct", "direct", "funcparam", "funcglobal", "funcdirect", "nested", "nested", "if", "ifdirect", "for", "fordirect", "shared", "shared", "unused", "elsedirect", "scopes", "reexec", "paramglobal", "untilexists", "nottaken", "multiret", "globalupdate", "afterchain", "flagafter", "loopswitch", "loopcall"})
 		if inBurst {
 			render = rng.Pick([]string{"direct", "direct", "top"})
 		}
@@ -791,6 +791,21 @@ func (h *c17Hist) render(seed uint64) []*c17Segment {
 			}
 			fmt.Fprintf(&g, "for it%d := 0; it%d < 3; it%d++ {\nswitch it%d {\ncase 0:\ncontinue\ncase 7:\nbreak\n}\n%s}\n", id, id, id, id, body)
 			return g.String()
+		case "loopcall":
+			// the operation stands in a counting (or range) loop that, in its second round only, calls
+			// a function with loops of its own - a condition-only one and a counting one, at the same
+			// nesting depth as the caller's loop: it runs exactly three times
+			var g strings.Builder
+			fmt.Fprintf(&g, "func lk%d(n%d int) int {\nk%d := 0\nfor k%d < n%d {\nk%d = k%d + 1\n}\nfor j%d := 0; j%d < 2; j%d++ {\nk%d = k%d + 1\n}\nreturn k%d\n}\n", id, id, id, id, id, id, id, id, id, id, id, id, id)
+			for _, p := range params {
+				fmt.Fprintf(&g, "%s := %s\n", p[0], p[1])
+			}
+			if id%2 == 0 {
+				fmt.Fprintf(&g, "for it%d := 0; it%d < 3; it%d++ {\nif it%d == 1 {\nz%d := lk%d(2)\nprint(\"<<N>>\", z%d)\n}\n%s}\n", id, id, id, id, id, id, id, body)
+			} else {
+				fmt.Fprintf(&g, "xs%d := []int{7, 8, 9}\nfor it%d, e%d := range xs%d {\nif it%d == 1 {\nz%d := lk%d(e%d - 6)\nprint(\"<<N>>\", z%d)\n}\n%s}\n", id, id, id, id, id, id, id, id, id, body)
+			}
+			return g.String()
 		case "afterchain":
 			// the operation FOLLOWS an if / else-if / else chain (or a switch with default) whose
 			// first and last branches leave the function, while the branch that is taken does not
@@ -1045,6 +1060,13 @@ func (h *c17Hist) render(seed uint64) []*c17Segment {
 						op.Render = "direct" // (an inline read(q) as content would change from round to round)
 					} else {
 						loopN = 2
+					}
+				}
+				if op.Render == "loopcall" {
+					if op.COrigin == "readof" {
+						op.Render = "direct"
+					} else {
+						loopN = 3
 					}
 				}
 				if op.Count > 1 && (op.Render == "for" || op.Render == "fordirect") && op.COrigin != "readof" {
